@@ -201,6 +201,28 @@ def RecvHalf.read (h : RecvHalf) (cap : Nat) : RecvHalf × ReadObs :=
     let r := RecvBuf.tryRead h.buf cap
     ({ h with buf := r.1 }, .read r.2.length none)
 
+def chunkLen (o : Option RecvBuf.Bytes) : Nat :=
+  match o with
+  | some d => d.length
+  | none => 0
+
+/-- `Reader::poll_next` (the `Stream` impl): hands out one whole segment.  `Recv::poll_next` has its
+own copy of the MAX_STREAM_DATA code of `poll_read`. -/
+def RecvHalf.next (h : RecvHalf) : RecvHalf × ReadObs :=
+  match h.phase with
+  | .recv =>
+    if !RecvBuf.isReadable h.buf then (h, .pending) else
+    let r := RecvBuf.tryNext h.buf
+    let hg := h.grow r.1
+    (hg.1, .read (chunkLen r.2) hg.2)
+  | .sizeKnown _ =>
+    if !RecvBuf.isReadable h.buf then (h, .pending) else
+    let r := RecvBuf.tryNext h.buf
+    ({ h with buf := r.1 }, .read (chunkLen r.2) none)
+  | .done =>
+    let r := RecvBuf.tryNext h.buf
+    ({ h with buf := r.1 }, .read (chunkLen r.2) none)
+
 /-! ## operation languages (the quantifier domains of the stream-level theorems) -/
 
 inductive SOp where
@@ -319,10 +341,18 @@ def Rcvr.read (r : Rcvr) (cap : Nat) : Rcvr × RdObs :=
     let res := r.half.read cap
     ({ r with half := res.1 }, .half res.2)
 
+/-- `Reader::poll_next`. -/
+def Rcvr.next (r : Rcvr) : Rcvr × RdObs :=
+  if r.rst.isSome then (r, .resetErr)
+  else
+    let res := r.half.next
+    ({ r with half := res.1 }, .half res.2)
+
 /-- Everything that can happen to a receiving half. -/
 inductive AOp where
   | rx (off len : Nat) (fin : Bool)
   | read (cap : Nat)
+  | next
   | stop (code : Nat)
   | reset (final : Nat)
   | dropReader
@@ -331,6 +361,7 @@ deriving Repr
 def Rcvr.step (fixed rfix : Bool) (r : Rcvr) : AOp → Rcvr
   | .rx off len fin => (r.rx fixed off len fin).1
   | .read cap => (r.read cap).1
+  | .next => r.next.1
   | .stop code => (r.stop code).1
   | .reset final => (r.reset rfix final).1
   | .dropReader => { r with readerGone := true }
